@@ -308,14 +308,18 @@ def chain (a : Abs) (root : Root) (slot : Nat) : Ans :=
     | some l => .chain (l.map (fun n => (n.ref, n.parentRoot)))
     | none => .err
 
-/-- linear scan for the closest node at or below `slot` -/
+/-- the greatest slot of any node -/
+def maxSlot (a : Abs) : Nat := (a.nodes.map (·.ref.slot)).foldl max 0
+
+/-- linear scan for the closest node at or below `slot` (no node lies above `maxSlot`, so the scan stops there: the
+query slot may be any 64-bit number) -/
 def closest (a : Abs) (root : Root) (slot : Nat) : Ans :=
   if a.has ⟨slot, root⟩ then .ref ⟨slot, root⟩ else
   match a.firstSlot root with
   | none => .err
   | some first =>
     if first > slot then .err else
-    match ((List.range (slot + 1)).filter (fun s => a.has ⟨s, root⟩)).getLast? with
+    match ((List.range (min slot a.maxSlot + 1)).filter (fun s => a.has ⟨s, root⟩)).getLast? with
     | some s => .ref ⟨s, root⟩
     | none => .err
 
